@@ -150,7 +150,6 @@ def model_steps(step):
 
 def model_request(script, steps=None):
     ms = []
-    paused = False
     for st in (script["steps"] if steps is None else steps):
         ms += model_steps(st)
         ms.append(["collect"])
@@ -164,10 +163,6 @@ def effective(script, taken):
     for st in script["steps"]:
         n = len(model_steps(st))
         if taken[i]:
-            if st[0] == "cutpause":
-                # the pause only exists for as many set_exception calls as the model made
-                j = sum(1 for t in taken[i + 1:i + n] if t)
-                st = ["cutpause", st[1]] if j == st[1] else ["cutpause", st[1]]
             out.append(st)
         i += n + 1      # + the collect marker
     return {"calls": script["calls"], "steps": out, "tag": script.get("tag", "")}
